@@ -246,8 +246,9 @@ class Dm14Query:
         self.return_raw_bytes = return_raw_bytes
         self.command = Command.READ
         self._ca.subscribe(self._parse_dm15)
-        self._send_dm14(self.user_level)
+        # state first: the answer may be processed before the send call returns
         self.state = QueryState.WAIT_FOR_SEED
+        self._send_dm14(self.user_level)
         # wait for operation completed DM15 message
         raw_bytes = None
         try:
@@ -295,8 +296,9 @@ class Dm14Query:
         self.bytes = self._values_to_bytes(values)
         self.object_count = len(values)
         self._ca.subscribe(self._parse_dm15)
-        self._send_dm14(self.user_level)
+        # state first: the answer may be processed before the send call returns
         self.state = QueryState.WAIT_FOR_SEED
+        self._send_dm14(self.user_level)
         # wait for operation completed DM15 message
         try:
             try:
